@@ -28,6 +28,43 @@ func runC11Escalate(cs *Case, c *c10Case, sink *logSink, li *logging.Instance) {
 		"exec":           {Name: "exec", Pattern: rx["verif_lvl_0"]},
 		"privilege-exec": {Name: "privilege-exec", Pattern: rx["verif_lvl_1"], PreviousPriv: "exec", Escalate: "enable", Deescalate: "disable", EscalateAuth: true, EscalatePrompt: rx[c04AuthPromptRx]},
 	}
+	if c.LossAfterSecret != "" {
+		// escalation inside the on-open hook; the link dies right after the secret went out
+		tr.WriteHook = func(n int, b []byte) {
+			if string(b) == c.Secret {
+				if c.LossAfterSecret == "eof" {
+					tr.Fail(sim.LossEOF)
+				} else {
+					tr.Fail(sim.LossErr)
+				}
+			}
+		}
+		d, err := network.NewDriver("sim", options.WithCustomTransport(tr), options.WithReadDelay(20*time.Microsecond), options.WithTimeoutOps(300*time.Millisecond),
+			options.WithPrivilegeLevels(pl), options.WithDefaultDesiredPriv("privilege-exec"), options.WithAuthSecondary(c.Secret),
+			options.WithLogger(li), options.WithChannelLog(sink),
+			options.WithNetworkOnOpen(func(nd *network.Driver) error { return nd.AcquirePriv("privilege-exec") }))
+		if err != nil {
+			cs.Oracle = "setup failed"
+			emit(cs)
+			return
+		}
+		oerr := d.Open()
+		time.Sleep(time.Millisecond)
+		_ = d.Close()
+		cs.Kind += "/loss-after-secret"
+		cs.Obs = "open:" + errClass(oerr)
+		cs.Nontrivial = true
+		if oerr == nil {
+			cs.Oracle = "open succeeded although the link died during the escalation of its on-open hook"
+			cs.Sig = "C11:harness"
+		}
+		if m := sink.containsAny(c.Secret); m != "" {
+			cs.Oracle = m
+			cs.Sig = "C11:secret-logged"
+		}
+		emit(cs)
+		return
+	}
 	d, err := network.NewDriver("sim", options.WithCustomTransport(tr), options.WithReadDelay(20*time.Microsecond), options.WithTimeoutOps(300*time.Millisecond),
 		options.WithPrivilegeLevels(pl), options.WithDefaultDesiredPriv("privilege-exec"), options.WithAuthSecondary(c.Secret),
 		options.WithLogger(li), options.WithChannelLog(sink))
